@@ -29,7 +29,7 @@ class Ref:
 def gen_case(rng, cid, two, length):
     cmds = []
     infos = {}
-    tids = ['a', 'b'] if two else ['DEFAULT']
+    tids = ['a', 'ab'] if two else ['DEFAULT']      # one id is a prefix of the other: ids are compared as wholes
     for t in tids:
         text, info = gen.simple_trace(rng, n=rng.randrange(1, 9), scopes={'top': ['clk', 'a']})
         cmds += [['file', t + '.vcd', text], ['load', t + '.vcd', t]]
